@@ -96,7 +96,23 @@ pub fn run_peaks(line: &str) -> String {
                 ("droplast", []) => show_pattern(&p.clone_drop_last()),
                 ("slice", [a, b]) => show_pattern(&p.slice_normalized((*a as usize)..(*b as usize))),
                 ("incr", [t]) => {
-                    let forms: Vec<String> = p.incremental_truncation(*t).map(|q| show_pattern(&q)).collect();
+                    let forms: Vec<String> = p.clone().incremental_truncation(*t).map(|q| show_pattern(&q)).collect();
+                    // the iterator's other ways of being consumed must walk the same sequence: nth(k), skip(k), step_by(2),
+                    // last(), count(), and an exact size_hint if it gives one
+                    let mut agree = p.clone().incremental_truncation(*t).count() == forms.len()
+                        && p.clone().incremental_truncation(*t).last().map(|q| show_pattern(&q)) == forms.last().cloned();
+                    for k in 0..forms.len() + 2 {
+                        agree &= p.clone().incremental_truncation(*t).nth(k).map(|q| show_pattern(&q)) == forms.get(k).cloned();
+                        let skipped: Vec<String> = p.clone().incremental_truncation(*t).skip(k).map(|q| show_pattern(&q)).collect();
+                        agree &= skipped[..] == forms[k.min(forms.len())..];
+                    }
+                    let stepped: Vec<String> = p.clone().incremental_truncation(*t).step_by(2).map(|q| show_pattern(&q)).collect();
+                    agree &= stepped == forms.iter().step_by(2).cloned().collect::<Vec<_>>();
+                    let (lo, hi) = p.clone().incremental_truncation(*t).size_hint();
+                    agree &= lo <= forms.len() && hi.map(|h| h >= forms.len()).unwrap_or(true);
+                    if !agree {
+                        return "iterator-adaptors-differ".into();
+                    }
                     if forms.iter().any(|s| s == "nonfinite") && forms.len() == 0 { "nonfinite".into() } else { format!("list {}", forms.join("|")) }
                 }
                 ("total", []) => frac(p.total()),
